@@ -372,7 +372,9 @@ def _merge_into(out, s1, s2, c1, exe):
         if va is None or vb is None:
             out.ghost[g] = va if va is not None else vb
         else:
-            if isinstance(va, (int, str, tuple, list, dict)) or isinstance(vb, (int, str, tuple, list, dict)):
+            if isinstance(va, frozenset) and isinstance(vb, frozenset):
+                out.ghost[g] = va | vb
+            elif isinstance(va, (int, str, tuple, list, dict, frozenset)) or isinstance(vb, (int, str, tuple, list, dict, frozenset)):
                 out.ghost[g] = va
             else:
                 out.ghost[g] = merge_vals(c1, va, vb)
